@@ -395,7 +395,7 @@ def natural_loops_by_dominators(body):
     return loops
 
 
-def explore(name, text, helpers=None, cls=None, precise_loops=False):
+def explore(name, text, helpers=None, cls=None, precise_loops=False, allow_no_limit=False):
     """Sets up one round of check_block (symbolic job, limit, queue; inner loops havocked) and explores it.
     Returns a dict with the executor, the body, the outcomes and the symbolic parameters."""
     body = parse_body(text)
@@ -424,8 +424,10 @@ def explore(name, text, helpers=None, cls=None, precise_loops=False):
     dbg = {}
     for m in re.finditer(r"debug (\w+) => _(\d+);", text):
         dbg.setdefault(m.group(1), int(m.group(2)))  # the first binding is the parameter
-    if "target_max_depth" not in dbg or "pending" not in dbg:
+    if "pending" not in dbg or ("target_max_depth" not in dbg and not allow_no_limit):
         raise Unsupported(f"{name} check_block: parameters `pending` / `target_max_depth` not found")
+    if "target_max_depth" not in dbg:
+        dbg = dict(dbg, target_max_depth=-1)  # this checker has no depth limit
     tgt_some, tgt = z3.Bool(f"has_target_max_depth_{name}"), z3.Int(f"target_max_depth_{name}")
     base = [tgt >= 1]
     st = State()
